@@ -8,7 +8,21 @@ last returned configuration} against ONE schema object.  All sequences up to dep
 d explicitly, each step compared with the same operation on a freshly loaded
 schema (differential) and with the structural digest of the schema before; then a
 breadth-first search to depth 8 with state = digest(schema).
+
+Wave 5 - the datatype-NAME axis.  The one object that the application schema, the per-load
+derived schema and the SchemaLoader made for '%import' all share besides the abstract types
+is the datatype registry.  A family of importable components, one per (shape of the datatype
+name x place where the name stands), is loaded in every order against one schema object:
+stock name, stock name in another case, dotted name the application schema already resolved,
+dotted name FIRST resolved during a load, the same relative to the component's prefix, a dotted
+name whose last component is a stock name, every proper component-wise suffix and prefix of
+that dotted name as a name of its own, the last component of a dotted name the schema knows,
+an unresolvable dotted name, the dotted name in another case.  Oracles: the fresh-schema
+differential, a reference for which shapes resolve at all, and a model of the registry's memo
+(only full dotted names that a load legitimately resolved may appear in it, each bound to the
+object an independent import finds).
 """
+import importlib
 import itertools
 
 from vz import core
@@ -91,6 +105,165 @@ def operations(plist):
     return ops
 
 
+# ---------------------------------------------------------------------------
+# wave 5: the datatype-name axis
+
+CONV_MODULE = "vzcv"
+CONV_SOURCE = '''"""datatype functions first resolved while a configuration is loaded (C13, datatype-name axis)"""
+from vz.harness.dt import Wrapped2
+
+
+def shout(v):
+    return "shout:" + v.upper() if isinstance(v, str) else Wrapped2(v)
+
+
+def integer(v):
+    """carries the NAME of a stock datatype as its last component, and converts differently"""
+    return "mine:" + v if isinstance(v, str) else Wrapped2(v)
+
+
+null = integer
+'''
+
+DT_PLACES = ("key", "section")          # <key datatype=...> / <sectiontype datatype=...>
+DT_KNOWN = {"key": SINT, "section": "vz.harness.dt.reject_section"}      # both resolved when the schema was parsed
+DT_STOCK = {"key": "integer", "section": "null"}
+# legacy operations that join the family in the sequences: a plain load, a failed load, an import of an unrelated
+# component, the mutation of the last result
+DT_CONTEXT_OPS = ("valid-defaults", "fault-value-conversion", "import-and-use", "mutate-last-result")
+
+
+def dt_shapes(T, place):
+    """(shape, datatype name, reference outcome, dotted names a load may memoize in the registry, component prefix).
+
+    Reference (documentation of Registry.get/search and of the 'prefix' attribute): a name without a dot is
+    lower-cased and must be a stock (or registered) name, otherwise the component is refused (SchemaError -> 'R');
+    a name with a dot is imported component by component, case-sensitively, and used as found ('A'); a name that
+    starts with a dot is appended to the prefix first; what a failing import raises is not specified ('X': any
+    error, but never accepted - and the same error whatever the schema served before)."""
+    stock, known = DT_STOCK[place], DT_KNOWN[place]
+    full = "%s.%s.shout" % (T, CONV_MODULE)
+    return (
+        ("stock", stock, "A", (), None),
+        ("stock-other-case", stock.capitalize(), "A", (), None),
+        ("dotted-known-to-schema", known, "A", (known,), None),
+        ("dotted-new", full, "A", (full,), None),
+        ("dotted-new-relative-to-prefix", ".%s.shout" % CONV_MODULE, "A", (full,), T),
+        ("dotted-new-last-component-stock", "%s.%s.%s" % (T, CONV_MODULE, stock), "A",
+         ("%s.%s.%s" % (T, CONV_MODULE, stock),), None),
+        ("suffix-1-of-new", "shout", "R", (), None),
+        ("suffix-1-of-new-other-case", "Shout", "R", (), None),
+        ("suffix-2-of-new", "%s.shout" % CONV_MODULE, "X", (), None),
+        ("prefix-1-of-new", T, "R", (), None),
+        ("prefix-2-of-new", "%s.%s" % (T, CONV_MODULE), "X", ("%s.%s" % (T, CONV_MODULE),), None),
+        ("suffix-1-of-known", known.rsplit(".", 1)[1], "R", (), None),
+        ("dotted-unresolvable", "%s.%s.nothere" % (T, CONV_MODULE), "X", (), None),
+        ("dotted-new-other-case", "%s.%s.Shout" % (T, CONV_MODULE), "X", (), None),
+    )
+
+
+N_SHAPES = 14
+N_DT_OPS = len(DT_CONTEXT_OPS) + N_SHAPES * len(DT_PLACES)
+
+
+def dt_operations(P):
+    """One component per (shape, place), each defining ONE section type that implements 'a' and has a key 'dk';
+    the operation imports the component and uses the type with a value.  -> (operations, meta by operation name)"""
+    T = P.add_component("pt", [], extra_files={CONV_MODULE + ".py": CONV_SOURCE})
+    ops, meta = [], {}
+    for pi, place in enumerate(DT_PLACES):
+        for si, (shape, dtname, want, memo, prefix) in enumerate(dt_shapes(T, place)):
+            tname = "d%s%d" % (place[0], si)
+            t = M.SType(tname, (M.Key("dk", dtname if place == "key" else "string"),), implements="a",
+                        datatype=dtname if place == "section" else None)
+            pkg = P.add_component("dt%s%d" % (place[0], si), [t], prefix=prefix)
+            name = "datatype-name:%s:%s" % (place, shape)
+            ops.append((name, "req r\n%%import %s\n<%s>\n  dk 12\n</%s>\n" % (pkg, tname, tname), ()))
+            meta[name] = {"place": place, "shape": shape, "datatype": dtname, "want": want, "memo": memo,
+                          "new": shape.startswith("dotted-new") and want == "A",
+                          "part": shape.startswith(("suffix-", "prefix-", "dotted-new-other-case"))}
+    return ops, meta
+
+
+# depth 4 (thorough) only below two-operation prefixes drawn from the operations that put something into the registry,
+# fail while doing so, or ask for a part of what was put there (positions in the alphabet: context operations first,
+# then the shapes at the key place, then at the section place)
+DT_CORE = ("fault-value-conversion", "import-and-use", "mutate-last-result",
+           "datatype-name:key:dotted-new", "datatype-name:key:dotted-new-relative-to-prefix",
+           "datatype-name:key:dotted-new-last-component-stock", "datatype-name:key:suffix-1-of-new",
+           "datatype-name:key:prefix-2-of-new", "datatype-name:key:dotted-unresolvable",
+           "datatype-name:key:dotted-new-other-case", "datatype-name:section:dotted-new",
+           "datatype-name:section:dotted-new-last-component-stock")
+
+
+def dt_alphabet_names():
+    names = [n for n in DT_CONTEXT_OPS]
+    for place in DT_PLACES:
+        names += ["datatype-name:%s:%s" % (place, sh[0]) for sh in dt_shapes("T", place)]
+    return names
+
+
+def dt_shards(dt_depth):
+    names = dt_alphabet_names()
+    shards = [("self-test-dt", (), 0, None)]
+    if dt_depth <= 3:
+        return shards + [("explicit-dt", (i,), dt_depth, None) for i in range(N_DT_OPS)]
+    core_ix = [names.index(n) for n in DT_CORE]
+    shards += [("explicit-dt", (i,), 1, None) for i in range(N_DT_OPS)]
+    shards += [("explicit-dt", (i, j), dt_depth if (i in core_ix and j in core_ix) else 3, None)
+               for i in range(N_DT_OPS) for j in range(N_DT_OPS)]
+    return shards
+
+
+def resolve_independently(name):
+    """What a dotted name denotes, found with importlib only."""
+    parts = name.split(".")
+    obj = importlib.import_module(parts[0])
+    for i, part in enumerate(parts[1:], 2):
+        try:
+            obj = getattr(obj, part)
+        except AttributeError:
+            obj = importlib.import_module(".".join(parts[:i]))
+    return obj
+
+
+def registry_memo(sch):
+    reg = getattr(sch, "registry", None)
+    return dict(getattr(reg, "_other", None) or {})
+
+
+def check_registry(sch, initial, allowed, acc, case, opname):
+    """Model of the registry's memo: the names it held when the schema was loaded, plus full dotted names that a
+    load of the history resolved - nothing else, and each bound to what an independent import finds."""
+    now = registry_memo(sch)
+    for k in sorted(set(now) - set(initial) - allowed, key=repr):
+        acc.violation("registry-answers-a-name-no-load-resolved", case, [repr(k), repr(now[k])[:120]],
+                      "memo holds only the schema's own names and full dotted names resolved by a load",
+                      tags={"kind": "registry-memo", "what": "unexplained-name",
+                            "name_shape": "dotted" if "." in str(k) else "bare"})
+        return False
+    for k in sorted(set(initial) - set(now), key=repr):
+        acc.violation("registry-lost-a-name", case, repr(k), "names of the schema stay",
+                      tags={"kind": "registry-memo", "what": "lost-name"})
+        return False
+    for k in sorted(now, key=repr):
+        if k in initial:
+            if now[k] is not initial[k]:
+                acc.violation("registry-name-rebound", case, [repr(k), repr(now[k])[:120]], repr(initial[k])[:120],
+                              tags={"kind": "registry-memo", "what": "rebound-name"})
+                return False
+        elif now[k] is not resolve_independently(k):
+            acc.violation("registry-name-bound-to-wrong-object", case, [repr(k), repr(now[k])[:120]],
+                          repr(resolve_independently(k))[:120],
+                          tags={"kind": "registry-memo", "what": "wrong-object"})
+            return False
+    return True
+
+
+def strip_registry(d):
+    return tuple(row for row in d if row[0] != "registry-other")
+
+
 def containers(v, out):
     if isinstance(v, Wrapped):
         containers(v.inner, out)
@@ -122,12 +295,16 @@ def mutate(cfg):
     return len(cs)
 
 
-def outcome(sch, text, overrides):
+def outcome(sch, text, overrides, lenient=False):
+    """`lenient`: the operation is one whose failure the documentation leaves unspecified (a dotted datatype name
+    that cannot be imported): any exception is then an outcome ('X', class), compared like the others."""
     r = H.load(sch, text, overrides=list(overrides))
     if r[0] == "ok":
         return ("A", H.tree(r[1])), r[1]
     if r[0] == "rejected":
         return ("R", type(r[1]).__name__), None
+    if lenient:
+        return ("X", type(r[1]).__name__), None
     return ("I", core.exc_desc(r[1])), None
 
 
@@ -135,14 +312,20 @@ IMPORT_OPS = ("import-extender-of-own-type", "import-and-use", "import-other-def
               "import-both-and-use")
 
 
-def run_sequence(xml, ops, seq, acc, mid, fresh_outcomes):
-    """Apply the operation sequence to one schema object; compare every step."""
+def run_sequence(xml, ops, seq, acc, mid, fresh_outcomes, meta=None):
+    """Apply the operation sequence to one schema object; compare every step.  With `meta` (datatype-name axis)
+    the registry's memo is compared with its model instead of being required to stay as it was."""
     sch = H.load_schema(xml)
     d0 = H.schema_digest(sch)
+    if meta is not None:
+        d0 = strip_registry(d0)
+        reg0, allowed = registry_memo(sch), set()
+        new_before, reg_ok = False, True
     last = None
     imported_before = False
     for step, oi in enumerate(seq):
         name, text, ovr = ops[oi]
+        m = meta.get(name) if meta is not None else None
         acc.ev()
         acc.transitions += 1
         case = {"member": mid, "sequence": [ops[i][0] for i in seq[:step + 1]],
@@ -152,11 +335,18 @@ def run_sequence(xml, ops, seq, acc, mid, fresh_outcomes):
                 mutate(last)
             obs = ("mutated",)
         else:
-            obs, cfg = outcome(sch, text, ovr)
+            obs, cfg = outcome(sch, text, ovr, lenient=m is not None)
             if cfg is not None:
                 last = cfg
             want = fresh_outcomes[oi]
             acc.cls("step:%s" % obs[0])
+            if m is not None and step == len(seq) - 1:
+                acc.cls("datatype-name:%s:%s:%s" % (m["place"], m["shape"], obs[0]))
+                if new_before and m["part"]:
+                    # a suffix / prefix / case variant of a dotted name, after a load that resolved that name
+                    acc.extra["dt_part_of_name_after_load_that_resolved_it"] += 1
+                if new_before and m["shape"].startswith("stock"):
+                    acc.extra["dt_stock_name_after_load_that_resolved_a_new_dotted_name"] += 1
             if obs[0] == "I":
                 acc.violation("internal-error", case, obs[1], want[0],
                               tags={"kind": "internal-error", "exc": obs[1]["class"], "op": name})
@@ -168,14 +358,22 @@ def run_sequence(xml, ops, seq, acc, mid, fresh_outcomes):
                                     "uses_type_imported_earlier": imported_before and "pa1" in text,
                                     "op": name})
                 return d0
+        if meta is not None:
+            if m is not None and text is not None and obs[0] != "R":
+                allowed.update(m["memo"])
+                new_before = new_before or (m["new"] and obs[0] == "A")
+            if reg_ok and not check_registry(sch, reg0, allowed, acc, case, name):
+                reg_ok = False          # reported once per sequence; the differential goes on
         d1 = H.schema_digest(sch)
+        if meta is not None:
+            d1 = strip_registry(d1)
         if d1 != d0:
             diff = [a[:2] for a, b in zip(d0, d1) if a != b]
             acc.violation("schema-changed-by-operation", case, repr(diff)[:300], "digest unchanged",
-                          tags={"kind": "schema-digest", "with_import": name in IMPORT_OPS,
+                          tags={"kind": "schema-digest", "with_import": name in IMPORT_OPS or m is not None,
                                 "what": sorted(set(x[0] for x in diff))})
             d0 = d1
-        if name in IMPORT_OPS:
+        if name in IMPORT_OPS or m is not None:
             imported_before = True
     return d0
 
@@ -189,10 +387,50 @@ def shard(arg, acc):
         xml = M.render(S)
         ops = operations(plist)
         mid = {"schema": xml}
+        meta = None
+        if kind in ("explicit-dt", "self-test-dt"):
+            dops, meta = dt_operations(P)
+            ops = [o for o in ops if o[0] in DT_CONTEXT_OPS] + dops
+            if [o[0] for o in ops] != dt_alphabet_names():
+                raise core.HarnessError("datatype-name alphabet %r differs from %r" % ([o[0] for o in ops],
+                                                                                      dt_alphabet_names()))
         fresh = {}
         for i, (name, text, ovr) in enumerate(ops):
             if text is not None:
-                fresh[i] = outcome(H.load_schema(xml), text, ovr)[0]
+                fresh[i] = outcome(H.load_schema(xml), text, ovr, lenient=meta is not None and name in meta)[0]
+        if kind == "self-test-dt":
+            # the fresh outcomes against the reference for datatype names: which shapes resolve at all, and to what
+            for i, (name, text, ovr) in enumerate(ops):
+                m = meta.get(name)
+                if m is None:
+                    continue
+                acc.ev()
+                got = fresh[i][0]
+                if got == "I" or (m["want"] in "AR" and got != m["want"]) or (m["want"] == "X" and got == "A"):
+                    acc.violation("fresh-outcome-differs-from-reference-for-datatype-names",
+                                  {"member": mid, "sequence": [name], "texts": [text], "overrides": [[]]},
+                                  [got, repr(fresh[i][1])[:300]], m["want"],
+                                  tags={"kind": "datatype-name-reference", "shape": m["shape"], "place": m["place"]})
+                    continue
+                acc.clause("datatype-name-reference:%s" % m["want"])
+                if got == "A" and m["place"] == "key":
+                    value = {"stock": "('int', 12)", "dotted-known-to-schema": "('int', 12)",
+                             "dotted-new-last-component-stock": "('str', 'mine:12')"}.get(
+                                 m["shape"].replace("-other-case", ""), "('str', 'shout:12')")
+                    if "('dk', %s)" % value not in repr(fresh[i][1]):
+                        raise core.HarnessError("operation %s: converted value %s not in %r" % (name, value, fresh[i][1]))
+            return acc
+        if kind == "explicit-dt":
+            # every sequence of <= depth operations of the datatype-name alphabet that starts with `prefix`
+            for n in range(len(prefix), depth + 1):
+                for tail in itertools.product(range(len(ops)), repeat=n - len(prefix)):
+                    seq = tuple(prefix) + tail
+                    run_sequence(xml, ops, seq, acc, mid, fresh, meta)
+                    if len(seq) >= 2 and ops[seq[-1]][0] in meta and any(ops[i][0] in meta for i in seq[:-1]):
+                        acc.nt()
+                    acc.sample(lambda: {"sequence": [ops[i][0] for i in seq]})
+            acc.traces = acc.transitions
+            return acc
         if kind == "self-test":
             # the fresh outcomes themselves: every fault op must be rejected, every valid op accepted
             for i, (name, text, ovr) in enumerate(ops):
@@ -260,6 +498,7 @@ def _strip_ids(d):
 
 def run(tier):
     depth = 4 if tier == "quick" else 5
+    dt_depth = 3 if tier == "quick" else 4
     nops = 22
     run = core.Run(
         "C13", tier, "model_checking",
@@ -270,9 +509,29 @@ def run(tier):
              "<= %d operations explicitly, each step compared with the same load on a fresh schema and with the "
              "schema's structural digest; then a breadth-first search to depth 8 with state = digest(schema) "
              "(object identities normalised).  Non-trivial = sequence with a failed load or a mutation followed by "
-             "another step." % (nops, depth),
+             "another step.  "
+             "Datatype-name axis: %d further operations, each '%%import' of its own component + use of its section "
+             "type, one per (shape of the datatype name x place): %d shapes {stock name; stock name in another case; "
+             "dotted name the schema itself resolved; dotted name first resolved during a load; the same relative to "
+             "the component's prefix; dotted name whose last component is a stock name (another function); each "
+             "proper component-wise suffix and prefix of that dotted name used as a name; the suffix in another "
+             "case; last component of a dotted name the schema knows; unresolvable dotted name; the dotted name in "
+             "another case} x places {key datatype, section-type datatype}, together with %d of the operations above "
+             "(%s): every sequence of <= %d of these %d operations on one schema object, each step compared with "
+             "the fresh schema, with the reference for which shapes resolve (self-test on the fresh schema), and "
+             "the registry's memo with its model (the schema's own names + full dotted names resolved by a load of "
+             "the history, each bound to what importlib finds); the rest of the digest as above.  Non-trivial there "
+             "= a datatype-name load after at least one other." % (
+                 nops, depth, N_SHAPES * len(DT_PLACES), N_SHAPES, len(DT_CONTEXT_OPS), ", ".join(DT_CONTEXT_OPS),
+                 dt_depth, N_DT_OPS),
         bounds={"explicit_depth": depth, "bfs_depth": 8, "operations": nops,
-                "depth_5_only_below_prefixes_of": "12 of the 22 operations (thorough tier)"},
+                "depth_5_only_below_prefixes_of": "12 of the 22 operations (thorough tier)",
+                "datatype_name_axis": {"shapes": N_SHAPES, "places": list(DT_PLACES), "operations": N_DT_OPS,
+                                       "explicit_depth": dt_depth, "in_bfs": False,
+                                       "depth_4_only_below_prefixes_of": "%d of the %d operations (thorough tier): %s"
+                                                                         % (len(DT_CORE), N_DT_OPS, ", ".join(DT_CORE)),
+                                       "sequences": sum(N_DT_OPS ** n for n in range(1, 4)) +
+                                       (len(DT_CORE) ** 2 * N_DT_OPS ** 2 if dt_depth >= 4 else 0)}},
         assumptions=["completeness of vz.harness.load.schema_digest (guarded by the differential oracle of the explicit "
                      "sequences)", "schema: defaults of every kind, derived type with another key type, abstract slot, "
                      "rejecting section datatype, datatypes loaded by dotted name, defaults whose converted value is a "
@@ -285,10 +544,28 @@ def run(tier):
                for i in range(nops) for j in range(nops)]
     shards += [("explicit", (i,), 1, tier) for i in range(nops)]
     shards += [("bfs", (), 8, tier)]
+    # wave 5: the datatype-name alphabet, every sequence of <= dt_depth operations
+    shards += dt_shards(dt_depth)
     core.pmap(shard, shards, run.acc, shard_budget=3000.0)
     a = run.acc
     run.require(a.classes.get("step:A", 0) > 100 and a.classes.get("step:R", 0) > 100, "few steps")
     run.require(a.states >= 1, "BFS did not run")
+    # the datatype-name axis was really exercised: every (shape, place) ended a sequence, the reference classified
+    # every one on the fresh schema, and parts of a dotted name were tried after a load that resolved the name
+    dtc = [k for k in a.classes if k.startswith("datatype-name:")]
+    run.require(len(set(k.rsplit(":", 1)[0] for k in dtc)) == N_SHAPES * len(DT_PLACES),
+                "datatype-name axis: not every (shape, place) ended a sequence")
+    run.require(sum(v for k, v in a.clauses.items() if k.startswith("datatype-name-reference:")) +
+                sum(1 for v in a.violations.values() if v["tags"].get("kind") == "datatype-name-reference")
+                >= N_SHAPES * len(DT_PLACES), "datatype-name axis: reference self-test incomplete")
+    run.require(a.extra.get("dt_part_of_name_after_load_that_resolved_it", 0) >= 1000,
+                "datatype-name axis: too few sequences try a part of a dotted name after a load that resolved it")
+    run.require(a.extra.get("dt_stock_name_after_load_that_resolved_a_new_dotted_name", 0) >= 200,
+                "datatype-name axis: too few sequences use a stock name after a dotted name was resolved")
+    run.require(all(a.classes.get("datatype-name:%s:%s:%s" % (p, sh, w), 0) > 0
+                    for p in DT_PLACES for sh, _n, w, _m, _p in dt_shapes("T", p) if w in "AR")
+                or bool(a.violations),
+                "datatype-name axis: a shape never had its reference outcome at the end of a sequence")
     return run
 
 
@@ -299,13 +576,24 @@ def replay(body):
     try:
         plist = make_packages(P)
         ops = operations(plist)
+        dops, meta = dt_operations(P)
+        ops = ops + dops
         byname = {o[0]: i for i, o in enumerate(ops)}
         seq = tuple(byname[n] for n in case["sequence"])
+        if not any(n in meta for n in case["sequence"]):
+            meta = None
         xml = case["member"]["schema"]
         for _ in range(2):
             acc = core.Acc()
-            fresh = {i: outcome(H.load_schema(xml), o[1], o[2])[0] for i, o in enumerate(ops) if o[1] is not None}
-            run_sequence(xml, ops, seq, acc, case["member"], fresh)
+            fresh = {i: outcome(H.load_schema(xml), o[1], o[2], lenient=meta is not None and o[0] in meta)[0]
+                     for i, o in enumerate(ops) if o[1] is not None}
+            run_sequence(xml, ops, seq, acc, case["member"], fresh, meta)
+            for i in seq:
+                m = (meta or {}).get(ops[i][0])
+                if m is not None and (fresh[i][0] == "I" or (m["want"] in "AR" and fresh[i][0] != m["want"])
+                                      or (m["want"] == "X" and fresh[i][0] == "A")):
+                    print("REPLAY violation: fresh schema:", ops[i][0], fresh[i][0], "reference", m["want"])
+                    rc = 1
             print("sequence:", case["sequence"])
             for v in acc.violations.values():
                 print("REPLAY violation:", v["kind"], v["observed"], "expected", v["expected"])
